@@ -15,7 +15,7 @@ THEOREMS = [
     "GoaktVerif.C02.C02_holds",
 ]
 TRUSTED = [
-    "scope of the model: local actors with the default (unbounded MPSC) mailbox, user messages only (the system mailbox stays empty), senders / dispatcher workers / restart threads; grains, reentrancy callbacks, passivation and reinstatement threads are not in the model",
+    "scope of the model: local actors with the default (unbounded MPSC) mailbox, user messages only (the system mailbox stays empty), senders / dispatcher workers / restart threads; the grain dispatch path (two queues, pause, grain mailbox) is a second model (Model/C01G, theorems C01G_holds/C02G_holds) tied by its own controlled-schedule replay (EXTRA_CHECKS); grain deactivation, PoisonPill and reinstatement threads are not in either model",
     "the mailbox is modelled by its sequential spec, the reservation queue (C04 is the property that ties mailboxes to it); mailbox-internal atomic operations appear as stutter steps with the code's labels",
     "the ready queue is abstracted to a number of entries (C05 covers the queue itself); the harness plays the workers through a non-blocking take (own ring, global ring, steal)",
     "tools/yieldinject + harness/vsched: the cooperative scheduler changes timing only; sequentially consistent atomics (Go memory model); plain accesses are not modelled as racy",
@@ -25,7 +25,7 @@ RULE = ("cases = (workers, budget, thread programs of Tell / take-and-run-turn /
         "non-trivial = the run produced a trace; distinct by (case, output)")
 MANIFEST = {
     "level_text": "Kernel-checked invariants over ALL schedules of any length, any number of senders, workers and restart threads: (accounting) the accepted messages are, as a multiset, exactly those handled, dropped while the actor was stopped, held by a worker, or still in the mailbox — so nothing is handled twice, invented or lost, and without a restart nothing is dropped; (no lost wake-up, as absence of stuck states) whenever the mailbox is non-empty there is a ready-queue entry for a free worker or a thread still responsible for the actor (token holder, turn owner, sender before its TrySchedule outcome, worker in its reclaim check); at quiescence a non-empty mailbox always has a ready-queue entry. Eventual scheduling under a fair scheduler is not stated temporally. The model is tied to the real code step by step: tools/yieldinject instruments the current dispatch_state.go / unbounded_mailbox.go / restartSubtree, the harness drives a real actor through the generated schedules with the harness playing the dispatcher workers, and the Lean model must reproduce every label, result and the final digest; the per-function site sequences are checked as facts.",
-    "level_note": "Model scope: local actors, default mailbox (as its reservation-queue spec), user messages, restart thread; grains / reentrancy / passivation threads not modelled. Trusted: Lean kernel (+propext, Quot.sound), yieldinject + cooperative scheduler (sequentially consistent atomics), ready queue abstracted to an entry count. The old defect (restart storing Idle) is kept as a model-level witness theorem and a corpus schedule.",
+    "level_note": "Model scope: local actors, default mailbox (as its reservation-queue spec), user messages, restart thread; grain dispatch path modelled and proved separately (C01G, run with this check); grain deactivation / reinstate threads not modelled. Trusted: Lean kernel (+propext, Quot.sound), yieldinject + cooperative scheduler (sequentially consistent atomics), ready queue abstracted to an entry count. The old defect (restart storing Idle) is kept as a model-level witness theorem and a corpus schedule.",
     "technique": "Lean 4 inductive invariant over a small-step model of the CAS machine, replayed in lockstep against the instrumented real code under controlled schedules",
 }
 INPKG = ["actor/zz_verif_mbox.go", "actor/zz_verif_c01.go"]
